@@ -188,6 +188,43 @@ def run(ctx, rep):
     rd = list(pr.calls('pread'))
     rep.rule('R-C05-7r', 'parity_read refuses positions beyond valid_size before reading', 1)
     rep.check(bool(chk) and bool(rd) and all(pr.bdominates(chk[0], r_.block) for r_ in rd), 'R-C05-7r', 'parity_read: valid_size test dominates pread', pr.file, '', function='parity_read', construct='valid_size gate')
+    # ---- R-C05-1v a reconstruction without any hash is validated against the one parity that did NOT take part in it
+    rep.rule('R-C05-1v', 'repair_step: when no hash is available the result of raid_data(r-1, ..., ip) is checked against parity level ip[r-1], the member of the combination not used for the reconstruction', 1)
+    rs_ = P.fn('repair_step')
+    ipm = list(rs_.calls('is_parity_matching'))
+    if len(ipm) != 1:
+        raise AnalysisBroken('repair_step: is_parity_matching call not found')
+    pm = ipm[0]
+    rd_ = [c_ for c_ in rs_.calls('raid_data') if rs_.dominates(c_, pm) and rs_.loop_of(c_.block) == rs_.loop_of(pm.block)]
+    okv = len(rd_) == 1
+    detv = 'no raid_data call feeds the parity check'
+    if okv:
+        lvl = rs_.inst_of(pm.ops[2])
+        okv = False
+        detv = 'level argument %s' % rs_.expr(pm.ops[2])
+        # level = load (gep ip, idx): same array as raid_data's parity vector, idx == raid_data's count of parities used
+        if lvl is not None and lvl.op == 'load':
+            gp = rs_.inst_of(lvl.ops[0])
+            if gp is not None and gp.op == 'getelementptr':
+                arr = rs_.strip(gp.ops[0]); rarr = rs_.strip(rd_[0].ops[2])
+                def root(o):
+                    i_ = rs_.inst_of(o)
+                    while i_ is not None and i_.op in ('getelementptr', 'bitcast', 'load') and i_.op != 'alloca':
+                        if i_.op == 'load':
+                            break
+                        i_ = rs_.inst_of(i_.ops[0])
+                    return i_.id if i_ is not None else None
+                idx = gp.ops[-1]
+                same_arr = root(gp.ops[0]) is not None and root(gp.ops[0]) == root(rd_[0].ops[2])
+                same_idx = rs_.xexpr(idx).replace(' ', '') == rs_.xexpr(rd_[0].ops[0]).replace(' ', '')
+                okv = same_arr and same_idx
+                detv = 'checked against %s; raid_data used the first %s entries of %s' % (rs_.expr(pm.ops[2]), rs_.expr(rd_[0].ops[0]), rs_.expr(rd_[0].ops[2]))
+    rep.check(okv, 'R-C05-1v', 'repair_step: spare-parity validation uses the unused member of the combination', pm.loc(), detv, function='repair_step', construct='spare parity level')
+
+    # ---- R-C05-9 which stripes check/fix process when the parity is filtered out: every stripe holding a block of a selected file,
+    # whatever the state of that block (CHG / REP blocks of a file recorded by an interrupted sync can be recovered too)
+    stripe_selection_rule(P, rep, 'R-C05-9')
+
     # ---- R-C05-8 a per-file flag that steers a write decision is read only after the site that computes it
     rep.rule('R-C05-8', 'state_check_process: every test of a file flag computed by the first-open detection (FILE_IS_UNSYNCED) is reached only after that detection in the same disk iteration (a --filter-error/-e fix never acts on a stale flag)', 1)
     cp = P.fn('state_check_process')
@@ -369,3 +406,23 @@ def locate_in_helpers(P, root, pred, depth=0):
             if r is not None:
                 return r
     return None
+
+
+def stripe_selection_rule(P, rep, rid):
+    rep.rule(rid, 'check/fix stripe selection (block_is_enabled of check.c): a stripe is taken when any disk has a block with a file (block_has_file: BLK, CHG and REP alike) whose file is not excluded', 1)
+    cands = [f_ for f_ in P.variants('block_is_enabled') if (f_.file or '').endswith('check.c')]
+    if len(cands) != 1:
+        raise AnalysisBroken('check.c block_is_enabled not found')
+    f = cands[0]
+    rep.analysed(f)
+    ones = [i for i in f.all_insts() if i.op == 'store' and f.expr(i.ops[1]) == '&retval' and f.const_of(i.ops[0]) == 1]
+    preds = set()
+    for st_ in ones:
+        gs = guards_of(f, st_)
+        if any(a.startswith('block_has') for a, _ in gs):
+            for a, p_ in gs:
+                if a.startswith('block_has') or a.startswith('file_flag_has'):
+                    preds.add((a.split('(')[0], p_))
+    want = {('block_has_file', True), ('file_flag_has', False)}
+    rep.check(preds == want, rid, 'block_is_enabled (check): file-based inclusion', f.file, 'included under %s' % sorted(preds) if preds == want else 'the per-disk inclusion is decided by %s instead of block_has_file && !excluded: stripes whose selected file has only not-yet-synced blocks are skipped, the file is never opened nor recovered' % sorted(preds),
+              function='block_is_enabled', construct='check stripe selection')
